@@ -594,6 +594,15 @@ impl<'tcx> Cx<'tcx> {
             }
             mir::Const::Ty(_, ct) => {
                 o.push(("tyconst", s(format!("{}", ct))));
+                if !ct.has_param() {
+                    let env = ty::TypingEnv::post_analysis(self.tcx, owner);
+                    let r = std::panic::catch_unwind(std::panic::AssertUnwindSafe(|| {
+                        c.const_.eval(self.tcx, env, c.span)
+                    }));
+                    if let Ok(Ok(v)) = r {
+                        self.const_value(owner, v, t, &mut o);
+                    }
+                }
             }
         }
         J::Obj(vec![("c", J::Obj(o))])
